@@ -237,3 +237,14 @@ class EffectsV(V):
 
     def __init__(self) -> None:
         self.ops: list[tuple[str, Any]] = []
+
+
+class RefV(V):
+    """An opaque heap object: a term of an uninterpreted sort + its descriptor."""
+    kind = "ref"
+
+    def __init__(self, term: Any, desc: Any) -> None:
+        self.t, self.desc = term, desc
+
+    def __repr__(self) -> str:
+        return f"RefV({self.desc.cls}:{self.t})"
